@@ -57,6 +57,7 @@
 ; @block unix requires Time
 (define-fun unix ((t Time)) Int (time.unix t))
 (define-fun nsec ((t Time)) Int (time.nsec t))
+(define-fun tns ((t Time)) Int (time.ns t))
 
 ; @block bufops requires Slice_Int
 ; appendbe(c,k,v) = c ++ BE_k(v);  catbytes(c,p) = c ++ p   (definitional)
